@@ -7,6 +7,7 @@ package ed25519
 // is inlined down to the limb code (and the translated assembly selector).
 
 func vh_C20_NewKeyFromSeed() {
+	vStopOnTaint(true) // the first secret-dependent site ends the run: the finding is established
 	seed := vSecretBytes("seed", 32)
 	k := NewKeyFromSeed(seed)
 	vAssert(len(k) == 64, "private key length")
@@ -14,6 +15,7 @@ func vh_C20_NewKeyFromSeed() {
 }
 
 func vh_C20_Sign() {
+	vStopOnTaint(true) // the first secret-dependent site ends the run: the finding is established
 	seed := vSecretBytes("seed", 32)
 	pub := vBytes("pub", 32)
 	priv := make([]byte, 64)
@@ -26,6 +28,7 @@ func vh_C20_Sign() {
 }
 
 func vh_C20_SignCtxPh() {
+	vStopOnTaint(true) // the first secret-dependent site ends the run: the finding is established
 	seed := vSecretBytes("seed", 32)
 	pub := vBytes("pub", 32)
 	priv := make([]byte, 64)
@@ -50,12 +53,14 @@ func vh_C20_SignCtxPh() {
 }
 
 func vh_C20_GenerateKey() {
+	vStopOnTaint(true) // the first secret-dependent site ends the run: the finding is established
 	pub, priv, err := GenerateKey(vReader("secret:entropy"))
 	_, _, _ = pub, priv, err
 	vReach("end of GenerateKey")
 }
 
 func vh_C20_PrivateKeyEqual() {
+	vStopOnTaint(true) // the first secret-dependent site ends the run: the finding is established
 	a := PrivateKey(vSecretBytes("a", 64))
 	b := PrivateKey(vSecretBytes("b", 64))
 	_ = a.Equal(b)
